@@ -402,7 +402,8 @@ func checkOmit(c *c15Case) {
 	}
 	rep.AddEval(1, 1)
 	rep.Count("omit.cases", 1)
-	if why := omitOffDisagree(c); why != "" {
+	off, why := omitOffDisagree(c)
+	if why != "" {
 		// another deviation (a listed one: exact tag keys, []byte, uint64, float32 — the main streams
 		// name it with the model) already separates the encoders on this value with both options
 		// off: the omit comparison would not be about the omit options
@@ -425,7 +426,7 @@ func checkOmit(c *c15Case) {
 			// trees must agree once every empty member (null, false, 0, "", [], {} — by anybody's
 			// definition, hereditarily) is taken out of both (and with both options off the encoders
 			// agree on this value: tested above)
-			why := omitExplained(c, outs[names[0]], outs[n])
+			why := omitExplained(c, off, outs[names[0]], outs[n])
 			if why == "" && lib.HasKnown(knownList, "C15-omit-options") {
 				f.Kind, f.KnownID = "known", "C15-omit-options"
 			} else if why != "" {
@@ -542,26 +543,72 @@ func dynStringTaggedKeys(v reflect.Value, out map[string]bool, depth int) {
 
 // omitExplained: "" when the disagreement of two encoders under OmitNil/OmitEmpty is of the kind the
 // known finding C15-omit-options describes, else why not.
-func omitExplained(c *c15Case, a, b string) string {
+func omitExplained(c *c15Case, off, a, b string) string {
 	if !c.spec.OmitNil && !c.spec.OmitEmpty {
 		return "both options are off"
 	}
 	an, e1 := lib.ParseCanon(a)
 	bn, e2 := lib.ParseCanon(b)
-	if e1 != nil || e2 != nil {
+	on, e3 := lib.ParseCanon(off)
+	if e1 != nil || e2 != nil || e3 != nil {
 		return "an encoder failed: " + a + " / " + b
 	}
 	strKeys := map[string]bool{}
 	stringTaggedKeys(c.d.RT, strKeys, map[reflect.Type]bool{})
 	dynStringTaggedKeys(c.v, strKeys, 0)
-	if pa, pb := pruneEmpty(an, strKeys).String(), pruneEmpty(bn, strKeys).String(); pa != pb {
-		return "the trees differ in more than empty members: " + pa + " / " + pb
+	// what the defect predicts: EACH encoder writes the tree all of them write with both options off
+	// (off), less some members that are empty — nothing added, nothing changed, nothing non-empty gone
+	for _, x := range []*lib.Node{an, bn} {
+		if !lessEmptyMembers(x, on, strKeys) {
+			return "a tree is not the tree written with both options off less empty members: " + x.String() + " / off: " + on.String()
+		}
 	}
 	return ""
 }
 
-// omitOffDisagree: with both omit options off the encoders do not agree on this value ("" when they do).
-func omitOffDisagree(c *c15Case) string {
+// lessEmptyMembers: x is off with some object members taken out whose value is empty (hereditarily).
+func lessEmptyMembers(x, off *lib.Node, strKeys map[string]bool) bool {
+	if x.Kind != off.Kind {
+		return false
+	}
+	switch x.Kind {
+	case '[':
+		if len(x.Kids) != len(off.Kids) {
+			return false
+		}
+		for i := range x.Kids {
+			if !lessEmptyMembers(x.Kids[i], off.Kids[i], strKeys) {
+				return false
+			}
+		}
+		return true
+	case '{':
+		have := map[string]*lib.Node{}
+		for i, k := range x.Keys {
+			have[k] = x.Kids[i]
+		}
+		n := 0
+		for i, k := range off.Keys {
+			if xv, ok := have[k]; ok {
+				n++
+				if !lessEmptyMembers(xv, off.Kids[i], strKeys) {
+					return false
+				}
+				continue
+			}
+			// gone: it must be empty (once its own empty members are gone)
+			p := pruneEmpty(off.Kids[i], strKeys)
+			if !emptyNode(p) && !(p.Kind == 'S' && strKeys[k] && (p.Text == lib.HexF([]byte("false")) || p.Text == lib.HexF([]byte("0")))) {
+				return false
+			}
+		}
+		return n == len(x.Keys) // nothing added
+	}
+	return x.Text == off.Text
+}
+
+// omitOffDisagree: the tree the encoders write with both omit options off, and "" — or who disagrees.
+func omitOffDisagree(c *c15Case) (string, string) {
 	s := c.spec
 	s.OmitNil, s.OmitEmpty = false, false
 	o := s.options()
@@ -576,10 +623,10 @@ func omitOffDisagree(c *c15Case) string {
 		if first == "" {
 			first = got
 		} else if got != first {
-			return e.name
+			return first, e.name
 		}
 	}
-	return ""
+	return first, ""
 }
 
 // ---- values outside the model: uint64 above int64, float32 outside struct fields -----------------
